@@ -120,6 +120,46 @@ def root_case(ctx, k):
     ctx.evaluations += n - 1
 
 
+def size_case(ctx, size):
+    """committed scripts whose length sits on both sides of every push-size boundary"""
+    seed = ctx.seed
+    ks = env.sym(seed, 'c5.K1')
+    pub = refed.public_key(ks)
+    head = committed_script(size % 256)
+    if size < len(head) + 3:
+        return
+    pad = size - len(head) - 4 if size - len(head) - 4 >= 256 else size - len(head) - 3
+    # head + PUSH(pad bytes) + POP0 has exactly `size` bytes
+    filler = (b'\x04' + pad.to_bytes(2, 'big') if pad >= 256 else b'\x03' + bytes([pad])) + b'\x5a' * pad + op('POP0')
+    s = head[:-1] + filler + op('TRUE')
+    if len(s) != size:
+        return
+    ctx.state(('size', size))
+    root, t = ref_root(pub, s)
+    try:
+        S = T.Script.from_bytes(s)
+        lock = T.make_taproot_lock(pub, S).bytes
+        nn = T.make_nonnative_taproot_lock(pub, S).bytes
+        w = T.make_taproot_witness_scriptspend(pub, S).bytes
+    except BaseException as e:
+        ctx.violation({'clause': 'builders handle a committed script of this size', 'size': size if size in (255, 256, 257) else 'other'},
+                      f'size {size}: {e!r}')
+        return
+    if lock != P(root) + op('TAPROOT') + b'\x00':
+        ctx.violation({'clause': 'root = P + clamp(sha256(P || sha256(S))) * G'}, f'size {size}')
+    for name, lk in (('native', lock), ('non-native', nn)):
+        rec = Recorder()
+        try:
+            v = F.run_auth_scripts([w, lk], {}, {CID: rec}, stack_max_item_size=2048)
+        except BaseException as e:
+            v = e
+        ctx.ran()
+        ctx.trans(3)
+        if v is not True or rec.log != [bytes([size % 256])]:
+            ctx.violation({'clause': 'script-spend witness made by the builder unlocks its lock', 'lock': name},
+                          f'committed script of {size} bytes: {v!r} {rec.log}')
+
+
 # ---------------------------------------------------------------- (B) key path
 def key_case(ctx, case):
     k, which, part = case
@@ -288,8 +328,9 @@ def equiv_case(ctx, w):
             # the non-native lock defines function 0, spends one CALL and one EVAL: excluded when the witness
             # itself interferes with those resources (redefines 0 after..., uses up the call budget)
             rv, e = ref_auth([wb + tail, lock], ro=sf, contracts={CID: Recorder()})
-            if 'DEF0' in repr(w) or 'SPEND' in repr(w):
-                ctx.unspec('witness touches the resources the non-native lock uses (definition 0 / call budget)')
+            if 'SPEND' in repr(w) or 'CALL' in repr(w):
+                # the statement only exempts witnesses that use up call budget (the non-native lock spends one CALL and one EVAL)
+                ctx.unspec('witness spends call budget')
                 continue
             ctx.violation({'clause': 'native == non-native', 'witness': 'adversarial family'},
                           f'witness {w!r} tail {ti}: native {v!r}/{log} non-native {v2!r}/{log2}')
@@ -305,6 +346,8 @@ def blocks(tier, seed):
     return [
         Block('A_root_identity_and_builders', list(range(nk)), root_case,
               'seeds x scripts covering all 32 clamp-bit patterns: lock bytes, script-spend witness, non-native', nshards=nk),
+        Block('A_committed_script_sizes', [40, 100, 127, 128, 129, 254, 255, 256, 257, 258, 511, 512, 1000, 1023, 1024, 1500], size_case,
+              'committed script lengths on both sides of 2^7, 2^8, 2^9, 2^10', nshards=16),
         Block('B_key_path', keycases, key_case, 'all flag values x allowed masks {00, ff, flag, ~flag} x sigfield sets; all signature / root bit flips',
               nshards=len(keycases)),
         Block('C_script_path_corruptions', list(range(4 if q else 8)), script_case,
@@ -323,5 +366,5 @@ def meta(tier, seed):
         states_meaning='distinct (seed, script/flag/mask/corruption) cases; transitions = scripts run',
         bounds={'seeds': 4 if q else 16, 'witness_nodes': 2 if q else 3},
         assumptions=['SHA-256 / Ed25519 hardness for the rejection direction',
-                     'native vs non-native: witnesses that redefine function 0 or spend call budget are excluded (counted as unspecified)'],
+                     'native vs non-native: witnesses that spend call budget are excluded (counted as unspecified); witnesses that define function 0 are in scope'],
     )
